@@ -5,7 +5,8 @@
 # Output: one line per (patch, alarm). /repo must be clean; the /repo lock is held per patch.
 cd /verif
 declare -A EXPECTED=( ["benign/C17/3/patch.diff:C20"]="AT_RANDOM bytes: genuine non-determinism (C20)" ["benign/C09/2/patch.diff:C08"]="accesses may span adjacent areas: C08 says an access past the end of its area fails" )
-for P in benign/C*/*/patch.diff benign/hand/*.diff; do
+LIST="${@:-$(ls benign/C*/*/patch.diff benign/hand/*.diff)}"
+for P in $LIST; do
   OUT=$(AXVERIF_CASES_DIV=3 tools/eval_mutant.sh $P C01 C02 C03 C04 C05 C06 C07 C08 C09 C10 C11 C12 C13 C14 C15 C16 C17 C18 C19 C20 2>&1)
   echo "$OUT" | grep -q "does not apply\|not clean" && { echo "$P: NOT EVALUATED ($(echo "$OUT" | head -1))"; continue; }
   ALARMS=""
